@@ -168,6 +168,7 @@ func (c04) RunCase(c fw.Case, env *fw.Env) *fw.CaseResult {
 	steps := c.Int("steps", 10)
 	cacheName := path + "/" + indexBucket("v", sv)
 	nQueries := 10
+	tw := newTrainWatch("v", sv)
 	for step := 0; step < steps; step++ {
 		var op gen.Op
 		if step == 0 && vc.Quant == "pq" {
@@ -178,6 +179,7 @@ func (c04) RunCase(c fw.Case, env *fw.Env) *fw.CaseResult {
 		} else {
 			op = h.Next(m)
 		}
+		mBefore := m.Clone()
 		ok, out := applyOp(res, "C04", s, m, op, step)
 		if !ok {
 			return res
@@ -193,6 +195,7 @@ func (c04) RunCase(c fw.Case, env *fw.Env) *fw.CaseResult {
 		if o.trained() {
 			res.Stat("batches_with_trained_quantiser", 1)
 		}
+		tw.step(res, "C04", mBefore, m, op, out.Succeeded, o.trained(), step)
 		digest := dump.Digest()
 		// cold instances on a byte copy
 		cold := map[string]*sx.Sx{}
